@@ -69,9 +69,22 @@ func jitter(r *rand.Rand) {
 	}
 }
 
+// GenChain draws a scenario of the "chain" family only: a safe or eventually-safe observable with 2-4 concurrent producers observed through
+// a pass-through operator followed by an operator with unsynchronised state (the serialisation promised by the observable must survive the
+// subscriber reuse of the pass-through operator).
+func GenChain(r *rand.Rand) Scenario {
+	for {
+		sc := Gen(r)
+		if (sc.Kind == "obs-safe" || sc.Kind == "obs-evsafe") && len(sc.PanicTd) == 0 && len(sc.Scripts) >= 2 {
+			sc.Chain = true
+			return sc
+		}
+	}
+}
+
 // Gen draws a scenario.
 func Gen(r *rand.Rand) Scenario {
-	kinds := []string{"obs-safe", "obs-safe", "obs-safe", "obs-evsafe", "obs-unsafe", "subj-publish", "subj-behavior", "subj-replay", "subj-async", "subj-unicast"}
+	kinds := []string{"obs-safe", "obs-safe", "obs-evsafe", "obs-evsafe", "obs-unsafe", "subj-publish", "subj-behavior", "subj-replay", "subj-async", "subj-unicast"}
 	sc := Scenario{Kind: kinds[r.Intn(len(kinds))], PanicTd: map[int]bool{}}
 	np := 1 + r.Intn(4)
 	if sc.Kind == "obs-unsafe" {
